@@ -18,7 +18,7 @@ import (
 )
 
 func init() {
-	props["C16"] = &prop{gen: genC16, eval: evalC16}
+	props["C16"] = &prop{gen: genC16, eval: evalC16, par: func(string) bool { return true }}
 }
 
 // ---------------------------------------------------------------------------------------------
